@@ -50,4 +50,142 @@ def chainAt (n : Nat) (a b : Sl) (j : Nat) : Option Nat :=
   let k := b.start + b.step * j
   if (match b.stop with | none => true | some t => decide (k < t)) then a.at n k else none
 
+/-! ### index tuples: the walk of `fuse_slice(a, b)` for two tuples
+
+`_optimize_slices` always calls `fuse_slice` with two tuples (dask's `getitem` tasks carry normalised, full-length index
+tuples of integers, slices and `None`; integer-array indices never reach a `getitem` task).
+
+Python                                              Lean
+------                                              ----
+entry of an index tuple                             `Ix` : `int n`, `sl s`, `full` (exactly `slice(None, None, None)`), `newaxis`
+`fuse_slice(a[i], b[j])` on entries                 `fuseIx` (`none` = `NotImplementedError`)
+`while b[j] is None: result.append(None); j += 1`   `splitNones` (running off the end of `b` is Python's `IndexError`)
+the `for i in range(len(a))` walk                   `fuseTuple` (structural in `a`)
+-/
+
+inductive Ix where
+  | int (n : Nat)
+  | sl (s : Sl)
+  | full
+  | newaxis
+  deriving Repr, DecidableEq
+
+def Ix.isInt : Ix → Bool
+  | .int _ => true
+  | _ => false
+
+/-- `normalize_slice(slice(None, None, None))` -/
+def fullSl : Sl := ⟨0, none, 1⟩
+
+/-- the normalised slice of an entry that is a slice -/
+def Ix.slice? : Ix → Option Sl
+  | .sl s => some s
+  | .full => some fullSl
+  | _ => none
+
+/-- `fuse_slice` on two entries; `none` is `NotImplementedError` -/
+def fuseIx : Ix → Ix → Option Ix
+  | .newaxis, .full => some .newaxis
+  | a, .int m => a.slice?.map fun s => .int (fuseInt s m)
+  | a, b =>
+    match a.slice?, b.slice? with
+    | some s, some t => some (.sl (fuse s t))
+    | _, _ => none
+
+/-- the leading `None`s of `b` (their number) and what follows them -/
+def splitNones : List Ix → Nat × List Ix
+  | .newaxis :: r => ((splitNones r).1 + 1, (splitNones r).2)
+  | r => (0, r)
+
+inductive Res where
+  | ok (r : List Ix)
+  | notImplemented
+  | indexError
+  deriving Repr, DecidableEq
+
+def Res.push (pre : List Ix) : Res → Res
+  | .ok r => .ok (pre ++ r)
+  | e => e
+
+/-- `fuse_slice(a, b)` for two tuples -/
+def fuseTuple : List Ix → List Ix → Res
+  | [], b => .ok b
+  | x :: a, b =>
+    if x.isInt || b.isEmpty then (fuseTuple a b).push [x]
+    else
+      match splitNones b with
+      | (_, []) => .indexError
+      | (k, y :: b') =>
+        match fuseIx x y with
+        | none => .notImplemented
+        | some z => (fuseTuple a b').push (List.replicate k .newaxis ++ [z])
+
+/-! #### what an index tuple means
+
+`applyB dims t c` : the source coordinate (in an array of shape `dims`) of element `c` of `x[t]`, `none` when `c` is
+outside `x[t]`. `applyU t c` is the same without the bounds of the source (only the explicit stops): the position inside
+the intermediate array `x[a]` that `b` asks for; whether that position exists is decided by `applyB dims a`. -/
+
+def Sl.atU (s : Sl) (j : Nat) : Option Nat :=
+  let i := s.start + s.step * j
+  if (match s.stop with | none => true | some t => decide (i < t)) then some i else none
+
+def inBounds : List Nat → List Nat → Bool
+  | [], [] => true
+  | d :: ds, c :: cs => decide (c < d) && inBounds ds cs
+  | _, _ => false
+
+def consOpt (p : Option Nat) (r : Option (List Nat)) : Option (List Nat) :=
+  match p, r with
+  | some p, some r => some (p :: r)
+  | _, _ => none
+
+def applyU : List Ix → List Nat → Option (List Nat)
+  | [], c => some c
+  | .int n :: t, c => consOpt (some n) (applyU t c)
+  | .newaxis :: t, ci :: c => if ci = 0 then applyU t c else none
+  | .sl s :: t, ci :: c => consOpt (s.atU ci) (applyU t c)
+  | .full :: t, ci :: c => consOpt (fullSl.atU ci) (applyU t c)
+  | _ :: _, [] => none
+
+def applyB : List Nat → List Ix → List Nat → Option (List Nat)
+  | dims, [], c => if inBounds dims c then some c else none
+  | d :: dims, .int n :: t, c => if n < d then consOpt (some n) (applyB dims t c) else none
+  | dims, .newaxis :: t, ci :: c => if ci = 0 then applyB dims t c else none
+  | d :: dims, .sl s :: t, ci :: c => consOpt (s.at d ci) (applyB dims t c)
+  | d :: dims, .full :: t, ci :: c => consOpt (fullSl.at d ci) (applyB dims t c)
+  | _, _, _ => none
+
+/-- what dask's index normalisation guarantees before a `getitem` task exists: the slices of `a` that meet an entry of
+    `b` have a positive step, and an integer of `b` addresses an existing element of `x[a]`. Same walk as `fuseTuple`. -/
+def pairsOK : List Nat → List Ix → List Ix → Bool
+  | _, [], _ => true
+  | dims, x :: a, b =>
+    if x.isInt || b.isEmpty then pairsOK (if x = .newaxis then dims else dims.tail) a b
+    else
+      match splitNones b with
+      | (_, []) => true
+      | (_, y :: b') =>
+        match x with
+        | .newaxis => pairsOK dims a b'
+        | _ =>
+          (match x.slice?, dims with
+           | some s, d :: _ =>
+             decide (0 < s.step) && (match y with | .int m => (s.at d m).isSome | _ => true)
+           | _, _ => true) && pairsOK dims.tail a b'
+
+/-- shape of `x[t]` for `x` of shape `dims` (`none`: an integer out of range or too many indices) -/
+def shapeIx : List Nat → List Ix → Option (List Nat)
+  | dims, [] => some dims
+  | d :: dims, .int n :: t => if n < d then shapeIx dims t else none
+  | dims, .newaxis :: t => (shapeIx dims t).map (1 :: ·)
+  | d :: dims, .sl s :: t => (shapeIx dims t).map (s.len d :: ·)
+  | d :: dims, .full :: t => (shapeIx dims t).map (fullSl.len d :: ·)
+  | _, _ => none
+
+def stepsPos : List Ix → Bool
+  | [] => true
+  | .sl s :: t => decide (0 < s.step) && stepsPos t
+  | _ :: t => stepsPos t
+
 end Dask.FuseSlice
